@@ -4,12 +4,13 @@ from .util import *
 EXPLANATION = """
 Claimed narrowly. Decides table/diagonal clauses and row-filter parity; does NOT decide numeric equality of metrics or bucket alignment.
 a1) AggState::merge has a diagonal arm (V, V) with an effect for every AggState variant.
+a3) AggState::merge never discards what it has: an accumulator field of `self` is overwritten with a plain copy of `other`'s field only on an edge where that accumulator is known to be empty (None).
 a2) snapshot_aggregator maps every AggregatorImpl variant to the like-named AggState (CountField -> CountAll is the one documented exception); no wildcard.
 b) AggPartial::merge visits every incoming group: insert-or-merge inside the loop over other.groups, no early exit from the loop.
 c) row-filter parity: ConditionEvaluatorBuilder::build_from_plan must add the event-type / FOR-context / SINCE conditions (add_special_fields) in aggregation mode as in selection mode.
 """
-FLOOR = 4
-REQUIRED = ["C09.a1", "C09.a2", "C09.b", "C09.c"]
+FLOOR = 5
+REQUIRED = ["C09.a1", "C09.a2", "C09.a3", "C09.b", "C09.c"]
 
 
 def run(ctx):
@@ -47,6 +48,61 @@ def run(ctx):
                 bad.append(("no-diagonal:%s" % V, "AggState::merge has no effective (%s, %s) arm: partial results of that metric from other shards/flows are dropped" % (V, V), None))
         return bad
     ctx.run("C09.a1", "K6 TABLE", "AggState::merge", "every aggregate state kind is merged with its own kind", a1)
+
+    def a3(inst):
+        b = F.fn("aggregate::partial::AggState::merge")
+        bad = []
+        n = 0
+
+        def self_field(place_or_op):
+            L = b.origins(place_or_op)
+            for l in L:
+                if l[0] == "param" and l[1] == "self" and l[2]:
+                    return tuple(p for p in l[2] if p.startswith("@") or p.startswith("."))
+            return None
+
+        def other_field(op):
+            for l in b.origins(op):
+                if l[0] == "param" and l[1] == "other" and l[2]:
+                    return tuple(p for p in l[2] if p.startswith("@") or p.startswith("."))
+            return None
+        # edges on which a given self field is known to be None
+        none_edges = {}
+        for c_ in b.find_calls(r"Option::is_none$"):
+            f_ = self_field(c_.args[0])
+            if f_:
+                none_edges.setdefault(f_, []).extend(bool_result_edge(b, c_, True))
+        for c_ in b.find_calls(r"Option::is_some$"):
+            f_ = self_field(c_.args[0])
+            if f_:
+                none_edges.setdefault(f_, []).extend(bool_result_edge(b, c_, False))
+        for i in b.live_blocks():
+            if b.blocks[i]["t"]["t"] != "switch":
+                continue
+            si = b.switch_info(i)
+            if si and si["kind"] == "enum" and (si.get("adt") or "").endswith("option::Option"):
+                f_ = self_field(si["place"])
+                if f_:
+                    for t in edges_for_variant(si, "None"):
+                        none_edges.setdefault(f_, []).append((i, t))
+        for blk in sorted(b.live_blocks()):
+            for s_ in b.blocks[blk]["s"]:
+                if "a" not in s_ or s_["v"]["r"] != "use" or "k" in s_["v"]["o"]:
+                    continue
+                if "*" not in s_["a"][1:]:
+                    continue
+                df = self_field(s_["a"])
+                of = other_field(s_["v"]["o"])
+                if df is None or of is None:
+                    continue
+                n += 1
+                inst.sites.append("self%s <- other%s (L%s)" % ("".join(df), "".join(of), s_.get("ln")))
+                if not any(b.dominates_edge(e, blk) for e in none_edges.get(df, [])):
+                    bad.append(("adopts-other-over-own:%s" % "".join(df), "AggState::merge overwrites self%s with other%s on a path where self%s may already hold a value: a partial with no value for the group erases the accumulated one" % ("".join(df), "".join(of), "".join(df)), None))
+        if n < 2:
+            raise AnchorMissing("plain copies from other into self in AggState::merge: %d (Min/Max adopt-when-empty expected)" % n)
+        return bad
+    ctx.run("C09.a3", "K8 GUARD", "AggState::merge (adoption of the other side)", "merging partials never loses an accumulated value", a3)
 
     def a2(inst):
         b = F.fn("aggregate::partial::snapshot_aggregator")
